@@ -31,6 +31,10 @@ func (h *RequestBufferMiddleware) ServeHTTP(w http.ResponseWriter, r *http.Reque
 		return
 	}
 
+	// Make sure the buffer (and any spill file) is discarded when the request
+	// ends, rather than relying on the next handler closing the body.
+	defer requestBuffer.Close()
+
 	r.Body = requestBuffer
 	h.next.ServeHTTP(w, r)
 }
